@@ -65,6 +65,11 @@ def _c12(run, drv, rng, tier):
     props_c12.check(run, drv, rng, tier)
 
 
+def _c16(run, drv, rng, tier):
+    from . import props_c16
+    props_c16.check(run, drv, rng, tier)
+
+
 def _c13(run, drv, rng, tier):
     from . import props_c13
     props_c13.check(run, drv, rng, tier)
@@ -310,5 +315,16 @@ PROPS = {
                 "renumbering; both compiled by the real compiler; distinct by (set of rewrites, message size)",
         "assumptions": FRONT_ASSUME + ["renaming / scope and file moves / trivia / constant expressions leave the elaborated type unchanged "
                                        "by construction of the name-free Ty representation; for the real compiler this is established by the correspondence only"],
+    },
+    "C16": {
+        "modules": ["BpModel.Props.C16"],
+        "theorems": ["Bp.C16.C16_keys", "Bp.C16.C16_key_order", "Bp.C16.C16_faithful", "Bp.C16.C16_leaves"],
+        "explore": _c16,
+        "correspondence": "json.loads (key order kept) of Python to_json()/to_dict() and of the C Json<Msg>() text vs the JSON value computed from the abstract schema",
+        "rule": "width grids (every width 1..64 in every position), arrays incl. byte arrays and huge arrays, long field names, "
+                "nesting to depth 8, enums in nested messages, imports, random schemas; assigned / decoded / fresh messages; "
+                "C text checked for well-formedness, NUL termination, return value; Python == C; distinct by feature tuple "
+                "(see tools/props_c16.NOTES.md)",
+        "assumptions": PY_ASSUME + C_ASSUME + ["json.dumps, dataclasses.asdict and vsprintf as libraries are outside the model"],
     },
 }
